@@ -123,6 +123,12 @@ def run():
     for r, st, v in retval(A, f):
         claim("two_loops", "k == 2 n after both loops", v is not None and A.holds(st, "==", v, nn.scale(2)), True)
         claim("two_loops", "k <= n after both loops", v is not None and A.holds(st, "<=", v, nn), False)
+    # self_affine: x = 2x + 3 carries x >= 1 over to x >= 5
+    f = u.func("self_affine"); A = poly.Analysis(f, unsigned_terms={P(f, "x")}).run()
+    for r, st, v in retval(A, f):
+        if norm(r.kid(0)) != ("c", 0):
+            claim("self_affine", "x >= 5 after x = 2x + 3 from x >= 1", v is not None and A.holds(st, ">=", v, Lin.const(5)), True)
+            claim("self_affine", "x >= 6 after x = 2x + 3 from x >= 1", v is not None and A.holds(st, ">=", v, Lin.const(6)), False)
     return n, fails
 
 
